@@ -56,7 +56,7 @@ def main():
                 print("%s  %-6s %-40s rc=%d %s" % ("ok  " if ok else "FAIL", m["kind"], m["name"], r.returncode, "" if ok else "(expected %s)" % (m.get("rule") or "silence")))
                 if not ok:
                     fails += 1
-                    print("\n".join("      " + l for l in r.stdout.splitlines() if l.startswith(("VIOLATION", "  rule", "  at", "ANALYSIS"))[:12]))
+                    print("\n".join(["      " + l for l in r.stdout.splitlines() if l.startswith(("VIOLATION", "  rule", "  at", "ANALYSIS"))][:12]))
             finally:
                 open(path, "w").write(orig)
     finally:
